@@ -174,6 +174,16 @@ def finish(mod, prop, tier, seed, recs, statuses, notes, t_start, replay, quiet,
             else:
                 viols.append(r)
     decided = by_v.get(common.HELD, 0) + by_v.get(common.VIOL, 0)
+    # a known finding may not grow: above its ceiling (share of all evaluations) the matched cases count as violations again
+    ceil = getattr(mod, "KNOWN_CEILING", {})
+    for m in list(kf_hits):
+        n_m = sum(int(r.get("n", 1)) for r in kf_hits[m])
+        lim = ceil.get(m, 0.05)
+        if total and n_m / total > lim and not replay:
+            for r in kf_hits[m][:3]:
+                r = dict(r, mech=m + ":rate_above_ceiling")
+                r["witness"] = dict(r.get("witness") or {}, known_finding_rate="%d of %d evaluations (ceiling %.3g)" % (n_m, total, lim))
+                viols.append(r)
 
     # coverage floor -> inconclusive
     inconc = []
